@@ -244,14 +244,15 @@ func runC07(c *Ctx) {
 				}
 				return false
 			}
-			iv := PathQuery{Fn: g, Start: sk, Edge: edge, Stop: isRead, Exit: func(*ssa.BasicBlock) bool { return false }, Weight: func(in ssa.Instruction) (int, int) {
+			// up to the next read, or up to the return of a helper that holds the end-of-pass sequence
+			iv := PathQuery{Fn: g, Start: sk, Edge: edge, Stop: isRead, Exit: func(b *ssa.BasicBlock) bool { return ExitOf(b) == ExitReturn }, Weight: func(in ssa.Instruction) (int, int) {
 				if isResync(in) {
 					return 1, 1
 				}
 				return 0, 0
 			}}.Count()
 			c.Check(iv.Is(1, 1), "O7.3", fk(g)+":reader-resynchronised-after-seek", sk.Pos(),
-				fmt.Sprintf("re-creations/Reset of the buffered reader between a successful seek and the next read = %v (want [1,1])", iv))
+				fmt.Sprintf("re-creations/Reset of the buffered reader between a successful seek and the next read (or the return) = %v (want [1,1])", iv))
 		}
 	}
 	c.Floor("O7.2", "header accumulators checked at seeks", nHdr, 2)
@@ -388,7 +389,8 @@ func loopHeaderOf(b *ssa.BasicBlock) *ssa.BasicBlock {
 }
 
 func sameInnermostLoop(a, b *ssa.BasicBlock) bool {
-	return loopHeaderOf(a) == loopHeaderOf(b) && loopHeaderOf(a) != nil
+	// (both outside any loop: a helper such as nextPass() that holds the whole end-of-pass sequence)
+	return loopHeaderOf(a) == loopHeaderOf(b)
 }
 
 func c07Setup(c *Ctx, fns []*ssa.Function) {
@@ -692,6 +694,19 @@ func c07SharedLeaves(P *Prog, v ssa.Value) []c07Shared {
 		case *ssa.Call:
 			if MatchCC(&x.Call, Spec{"net/http", "Header", "Clone"}) {
 				return
+			}
+			// a helper of the package that builds the map (withConfigHeaders): what it returns
+			if sc := x.Call.StaticCallee(); sc != nil && len(sc.Blocks) > 0 && PkgOf(sc) == PkgOf(x.Parent()) && len(via) < 8 {
+				nRet := 0
+				EachInstr(sc, func(in ssa.Instruction) {
+					if ret, ok := in.(*ssa.Return); ok && len(ret.Results) > 0 {
+						nRet++
+						walk(ret.Results[0], via)
+					}
+				})
+				if nRet > 0 {
+					return
+				}
 			}
 		case *ssa.Parameter:
 			sites := P.StaticCallSites(x.Parent())
